@@ -3,6 +3,7 @@ use serde_json::Value;
 
 pub mod c01;
 pub mod c02;
+pub mod c03;
 pub mod c04;
 pub mod c12;
 pub mod c13;
@@ -16,6 +17,7 @@ pub fn run(ctx: &Ctx, prop: &str) -> bool {
     match prop {
         "C01" => c01::run(ctx),
         "C02" => c02::run(ctx),
+        "C03" => c03::run(ctx),
         "C04" => c04::run(ctx),
         "C12" => c12::run(ctx),
         "C13" => c13::run(ctx),
@@ -32,6 +34,7 @@ pub fn replay(ctx: &Ctx, prop: &str, kind: &str, case: &Value) -> bool {
     match prop {
         "C01" => c01::replay(ctx, case),
         "C02" => c02::replay(ctx, kind, case),
+        "C03" => c03::replay(ctx, case),
         "C04" => c04::replay(ctx, case),
         "C12" => c12::replay(ctx, case),
         "C13" => c13::replay(ctx, kind, case),
